@@ -46,6 +46,20 @@ type endpointPair struct {
 	curBlock  bytes.Buffer
 	curItem   *item
 	curStream uint32
+	// knownHPACK: the scenario is the one of known finding C08-hpack-encode-order; only what
+	// the receiver's HPACK decoder yields is attributed to it, everything else (frame kinds,
+	// order, DATA bytes, END_STREAM, reset codes) is still checked as usual.
+	knownHPACK bool
+}
+
+func (p *endpointPair) hpackAssert(c bool, label string) {
+	if p.knownHPACK {
+		vf.Known("C08-hpack-encode-order", true)
+		vf.Assert(c, label)
+		vf.KnownClear("C08-hpack-encode-order")
+		return
+	}
+	vf.Assert(c, label)
 }
 
 func newPair(w *world, c2s bool) *endpointPair {
@@ -186,7 +200,7 @@ func (p *endpointPair) collect() {
 
 func (p *endpointPair) finishBlock() {
 	fields, err := p.dec.DecodeFull(p.curBlock.Bytes())
-	vf.Assert(err == nil, "header-block-decodes-under-receiver-hpack-state")
+	p.hpackAssert(err == nil, "header-block-decodes-under-receiver-hpack-state")
 	p.curItem.hdrs = fields
 	p.recv[p.curStream] = append(p.recv[p.curStream], *p.curItem)
 	p.curItem = nil
@@ -219,7 +233,7 @@ func (p *endpointPair) compare(tag string, streams []uint32) {
 			}
 			switch s[i].kind {
 			case kHeaders:
-				vf.Assert(sameFields(s[i].hdrs, r[i].hdrs), tag+":header-fields-equal")
+				p.hpackAssert(sameFields(s[i].hdrs, r[i].hdrs), tag+":header-fields-equal")
 				vf.Assert(s[i].end == r[i].end, tag+":headers-end-stream-position")
 				vf.Assert(s[i].hasPrio == r[i].hasPrio, tag+":headers-priority-presence")
 				if s[i].hasPrio && r[i].hasPrio {
@@ -317,9 +331,13 @@ func VerifC08BlockedInterleave() {
 	// Known finding: header blocks are HPACK-encoded when enqueued but sent after
 	// flow-blocked DATA of their stream, so a block encoded later (another
 	// stream) can reach the peer first and no longer decodes.
-	vf.Known("C08-hpack-encode-order", blocked && trailersFirst && !reset)
+	p.knownHPACK = blocked && trailersFirst && !reset
 	p.collect()
 	if blocked {
+		// a zero window holds back DATA (and what is queued behind it on that stream), not
+		// frames without flow-control cost on a stream that has nothing queued
+		vf.Assert(len(p.recv[3]) == 1, "header-block-of-another-stream-not-held-back-by-a-zero-window")
+		vf.Assert(len(p.recv[1]) >= 1, "header-block-ahead-of-the-blocked-data-not-held-back")
 		vf.Assert(w.sw.WriteWindowUpdate(1, 10) == nil, "harness-write-window-update")
 		vf.Assert(w.pumpServer() == nil, "relay-accepts-window-update")
 		p.collect()
